@@ -136,3 +136,13 @@ def register(claim):
           "deleted, EndSeqNo does not bound the tail gap fill, no range validation before mutation. Contiguity arithmetic of the gap-fill chain over arbitrary "
           "journal content is not decided.",
           "DESIGN.md#c06")
+
+    claim("C15", "guard extraction per rejecting raise (effect-recognised 2x10 check matrix), sibling cross-check of the two validators, raise-set / assert / keyed-lookup escape analysis, "
+          "provenance of the required flag, CFG ordering of the dictionary loader",
+          "Static over all message shapes: every 'required member missing' rejection is kind-agnostic (fields and groups); the message-level and the group-item-level "
+          "validators each have a rejecting branch for every applicable fault class (unknown tag, not allowed here, field<->group confusion both ways, value check, "
+          "required missing, recursion, member order, first member, unknown type) and the order bookkeeping is per item and per member; only FIXMessageError "
+          "subclasses are raised on message data, no assert or unguarded lookup is keyed by it; the required flag is always a boolean expression; component "
+          "resolution retries with fresh containers, registers only complete components, stops on no progress and precedes message parsing.",
+          NOTE_COMMON + " That every valid instance of every message type of the bundled dictionaries validates, value by value, is not decided.",
+          "DESIGN.md#c15")
